@@ -122,6 +122,23 @@ def check(smi, table, r, tolerant=False):
     if v:
         r.violation(v[0], case, "%r -> %r -> %r: %s" % (smi, x, y, v[1]))
         return None
+    # the same SMILES through the encoder's other mode: whatever strict=False returns must round-trip as well
+    try:
+        x2 = _SF.encoder(smi, strict=False)
+    except Exception as e:
+        r.violation("nonstrict-rejects-what-strict-accepts", case, "%r: %r" % (smi, e))
+        return None
+    if x2 != x:
+        try:
+            y2 = _SF.decoder(x2)
+            aout2 = smiread.read_smiles(y2)
+        except Exception as e:
+            r.violation("decode-or-read-fails", case, "strict=False: %r -> %r: %r" % (smi, x2, e))
+            return None
+        v = roundtrip.compare_skeleton(ain, aout2) or roundtrip.compare_stereo(ain, aout2)
+        if v:
+            r.violation("strict=False:" + v[0], case, "%r -> %r -> %r: %s" % (smi, x2, y2, v[1]))
+            return None
     r.validated += 1
     r.nontrivial.add(h64(x))
     # did the encoder flip the tag anywhere?  (vacuity guard: both flipped and unflipped centres must occur)
